@@ -15,7 +15,8 @@ def claim(pid, text, note, technique, ref):
 exec(open(os.path.join(HERE, "claims.py")).read())
 
 BASELINE = json.load(open("/root/.vp/BASELINE.json"))["cmd"]
-fix_commits = [l.split()[3] for l in json.load(open(os.path.join(HERE, "known_findings.json")))["fixed"]]
+# the 'fix:' commits in /repo, oldest first (authoritative: read from the repository's own history)
+fix_commits = [l.split()[0] for l in reversed(subprocess.run(["git", "-C", "/repo", "log", "--format=%h %s"], capture_output=True, text=True).stdout.splitlines()) if l.split(" ", 1)[1].startswith("fix:")]
 
 checks, na = [], []
 for p in props:
@@ -53,7 +54,7 @@ m = {
         "kind_free_text": "repository-specific static analyser (go/packages + go/types + go/ssa, x/tools v0.29.0): dominance, must-pass-through, who-may-call, exhaustiveness, sibling-agreement, lock-scope, value-flow, SQL-template and constant-relation rules; obligations keyed by rule+construct; fail-closed on undecided shapes",
     }],
     "checks": checks,
-    "notes": "Every check is a static analysis of /repo's working tree at level 'other': it decides named structural clauses that are necessary conditions of the property (listed in level_claimed.text), not the behaviour. source_commits are 'fix:' repairs of genuine defects the checks found (see known_findings.json and DESIGN.md §9); there are no hook commits.",
+    "notes": "Every check is a static analysis of /repo's working tree at level 'other': it decides named structural clauses that are necessary conditions of the property (listed in level_claimed.text), not the behaviour. source_commits are 'fix:' repairs of genuine defects the checks found (see known_findings.json and DESIGN.md §8); there are no hook commits.",
     "not_applicable": na,
 }
 json.dump(m, open(os.path.join(HERE, "MANIFEST.json"), "w"), indent=1)
